@@ -537,6 +537,16 @@ func histMain(args []string) int {
 	if len(args) > 0 {
 		arg0 = args[0]
 	}
+	if strings.HasPrefix(arg0, "@") {
+		// a long history handed over in a file
+		data, err := os.ReadFile(arg0[1:])
+		if err != nil {
+			fmt.Fprintln(os.Stderr, err)
+			return 2
+		}
+		arg0 = strings.TrimSpace(string(data))
+		args = []string{arg0}
+	}
 	m, err := ref.LoadLangs(verif+"/golden", langsOfOps(arg0))
 	if err != nil {
 		fmt.Fprintln(os.Stderr, err)
